@@ -18,7 +18,10 @@ func zzPrio(name string) int32 {
 // zzAdmWorld: base world + nANP admin policies with symbolic pairwise-distinct priorities (inserted in
 // index order, so every relative order of input position and priority is covered), optional BANP and
 // optional NetworkPolicy.
-func zzAdmWorld(nANP int, rich bool) *zzGen {
+func zzAdmWorld(nANP int, rich bool) *zzGen { return zzAdmWorldX(nANP, rich, true, true) }
+
+// zzAdmWorldX: optBANP / optNP open the optional BANP / NetworkPolicy choices
+func zzAdmWorldX(nANP int, rich, optBANP, optNP bool) *zzGen {
 	g := zzBaseWorld(true, true)
 	ing := vf_Choose("dir", 2) == 0
 	var prios []int32
@@ -40,14 +43,14 @@ func zzAdmWorld(nANP int, rich bool) *zzGen {
 			g.addANP(g.zzGenANPx(name, pr, ing, 1, 1, 1, 1))
 		}
 	}
-	if vf_Choose("banp", 2) == 1 {
+	if optBANP && vf_Choose("banp", 2) == 1 {
 		if rich {
 			g.addBANP(g.zzGenBANPx(ing, 1, 2, 2, 2))
 		} else {
 			g.addBANP(g.zzGenBANPx(ing, 1, 1, 1, 1))
 		}
 	}
-	if vf_Choose("np", 2) == 1 {
+	if optNP && vf_Choose("np", 2) == 1 {
 		// a NetworkPolicy governing pod a in both directions: from/to app=b on a TCP range
 		p, e := zzPortVar("np.p"), zzPortVar("np.e")
 		vf_Assume(p <= e)
@@ -76,7 +79,8 @@ func ZZ_C02_Layering() {
 
 // C03 on admin-policy worlds: eval == list == semantics
 func ZZ_C03_EvalVsList_ANP() {
-	g := zzAdmWorld(2, vf_Tier() > 0)
+	// quick: two ANPs and the optional BANP (the NetworkPolicy layer under admin policies is in the thorough tier and in C02)
+	g := zzAdmWorldX(2, vf_Tier() > 0, true, vf_Tier() > 0)
 	pe, err := NewPolicyEngineWithObjects(g.Objs)
 	vf_Assert(err == nil, "engine-built")
 	zzCheckEvalOnePair(g, pe)
